@@ -179,6 +179,7 @@ func init() {
 			ruleCounting(c, r, "", "write")
 			ruleBlockWriterHash(c, r, "")
 			ruleLookahead(c, r, "")
+			ruleOpMargin(c, r, "")
 			ruleCtorReopen(c, r, "")
 			ruleLoopAdvanceExact(c, r, "")
 			ruleEncoderDictArgs(c, r, "")
